@@ -6,8 +6,8 @@
    infinity written (0,0)), SM2/DER.v (encoding/asn1).  Specification: SM2/SM2Spec.v (GM/T 0003.4). *)
 From Coq Require Import List NArith ZArith Bool Lia Arith.
 From GmsmVerif Require Import Lib.Outcome EC.ECAffine EC.SM2Curve SM3.SM3Spec
-     SM2.SM2Bytes SM2.SM2BytesProofs SM2.SM2Spec SM2.DER SM2.SM2Model SM2.SM2SignProofs SM2.SM2Group
-     SM2.SM2EncProofs SM2.SM2Asn1Proofs.
+     SM2.SM2Bytes SM2.SM2BytesProofs SM2.SM2Spec SM2.DER SM2.SM2Model SM2.SM2SignProofs SM2.SM2GroupMin
+     SM2.SM2EncProofs SM2.SM2Asn1Proofs SM2.SM2OtherKey.
 From GmsmVerif Require Import SM2.SM2ParamsTie Gen.SM2Params Gen.SM2SigParams.
 Import ListNotations.
 Open Scope Z_scope.
@@ -64,13 +64,32 @@ Theorem C02_encrypt_empty_is_error :
 Proof. reflexivity. Qed.
 Print Assumptions C02_encrypt_empty_is_error.
 
-(* ---- 3. round trip, both orderings, raw and ASN.1 (under SM2Facts) ----------------------------------- *)
+(* ---- 3. round trip, both orderings, raw and ASN.1 -----------------------------------------------------
+   Minimal premises (SM2/SM2GroupMin.v): p prime (closure of the group operations), associativity of the affine
+   addition on curve points, [k]G finite for 0 < k < n.  Neither "n prime" nor "[n]G = O" is needed.
+   The versions with the bundled premise SM2Facts follow. *)
+Theorem C02_decrypt_encrypt_min :
+  P_prime -> Add_assoc -> G_multiples_finite -> forall fuel d M rho mode c rho',
+    1 <= d < sm2_n -> (length rho / 40 < fuel)%nat ->
+    Encrypt fuel (ScalarBaseMult d) M rho mode = Ok (c, rho') ->
+    Decrypt (key_of d) c mode = Ok M.
+Proof. exact Decrypt_Encrypt. Qed.
+Print Assumptions C02_decrypt_encrypt_min.
+
+Theorem C02_decryptAsn1_encryptAsn1_min :
+  P_prime -> Add_assoc -> G_multiples_finite -> forall fuel d M rho der rho',
+    1 <= d < sm2_n -> (length rho / 40 < fuel)%nat -> Z.of_nat (length M) < 65000 ->
+    EncryptAsn1 fuel (ScalarBaseMult d) M rho = Ok (der, rho') ->
+    DecryptAsn1 (key_of d) der = Ok M.
+Proof. exact DecryptAsn1_EncryptAsn1. Qed.
+Print Assumptions C02_decryptAsn1_encryptAsn1_min.
+
 Theorem C02_decrypt_encrypt :
   SM2Facts -> forall fuel d M rho mode c rho',
     1 <= d < sm2_n -> (length rho / 40 < fuel)%nat ->
     Encrypt fuel (ScalarBaseMult d) M rho mode = Ok (c, rho') ->
     Decrypt (key_of d) c mode = Ok M.
-Proof. exact Decrypt_Encrypt. Qed.
+Proof. intros F. destruct (facts_split F) as (Hp & _ & Ha & _ & Hf). exact (Decrypt_Encrypt Hp Ha Hf). Qed.
 Print Assumptions C02_decrypt_encrypt.
 
 Theorem C02_decryptAsn1_encryptAsn1 :
@@ -78,7 +97,7 @@ Theorem C02_decryptAsn1_encryptAsn1 :
     1 <= d < sm2_n -> (length rho / 40 < fuel)%nat -> Z.of_nat (length M) < 65000 ->
     EncryptAsn1 fuel (ScalarBaseMult d) M rho = Ok (der, rho') ->
     DecryptAsn1 (key_of d) der = Ok M.
-Proof. exact DecryptAsn1_EncryptAsn1. Qed.
+Proof. intros F. destruct (facts_split F) as (Hp & _ & Ha & _ & Hf). exact (DecryptAsn1_EncryptAsn1 Hp Ha Hf). Qed.
 Print Assumptions C02_decryptAsn1_encryptAsn1.
 
 (* CipherUnmarshal restores exactly the 32-byte coordinates, for all x, y below 2^256 incl. short ones *)
@@ -160,6 +179,32 @@ Proof.
 Qed.
 Print Assumptions C02_altered_C2_rejected_or_collision.
 
+(* made for a different key: if a ciphertext produced for [d]G is decrypted without error under another key
+   d' (d, d' in [1, n-1], d <> d'), then the two shared points S = [d]C1 and S' = [d']C1 are different and
+   SM3(x2' || M' || y2') = SM3(x2 || M || y2) for the DIFFERENT byte strings built from them: an explicit SM3
+   collision.  Otherwise the result is an error.  Premises: all five components of SM2Facts. *)
+Theorem C02_other_key_rejected_or_collision :
+  P_prime -> Add_assoc -> G_order_divides_n -> G_multiples_finite -> N_prime ->
+  forall fuel d d' M rho mode c rho' M',
+    1 <= d < sm2_n -> 1 <= d' < sm2_n -> d <> d' -> (length rho / 40 < fuel)%nat ->
+    Encrypt fuel (ScalarBaseMult d) M rho mode = Ok (c, rho') ->
+    Decrypt (key_of d') c mode = Ok M' ->
+    exists k, 1 <= k < sm2_n /\
+      let S := sm2_mul d (sm2_base_mul k) in let S' := sm2_mul d' (sm2_base_mul k) in
+      S' <> S /\
+      sm3 (fe_bytes (x_of S') ++ M' ++ fe_bytes (y_of S')) = sm3 (fe_bytes (x_of S) ++ M ++ fe_bytes (y_of S)) /\
+      fe_bytes (x_of S') ++ M' ++ fe_bytes (y_of S') <> fe_bytes (x_of S) ++ M ++ fe_bytes (y_of S).
+Proof. exact other_key_collision. Qed.
+Print Assumptions C02_other_key_rejected_or_collision.
+
+(* the shared points of different receivers differ: [d']C1 <> [d]C1 for C1 = [k]G *)
+Theorem C02_shared_points_differ :
+  P_prime -> Add_assoc -> G_order_divides_n -> G_multiples_finite -> N_prime ->
+  forall d d' k, 1 <= d < sm2_n -> 1 <= d' < sm2_n -> d <> d' -> 1 <= k < sm2_n ->
+    sm2_mul d' (sm2_base_mul k) <> sm2_mul d (sm2_base_mul k).
+Proof. exact shared_points_differ. Qed.
+Print Assumptions C02_shared_points_differ.
+
 (* ---- tie to the source: curve constants, 40 nonce bytes, mode values, minimal ciphertext length ---------- *)
 Theorem C02_source_constants_tied :
   (gen_P = sm2_p /\ gen_N = sm2_n /\ gen_A = sm2_a /\ gen_B = sm2_b /\ gen_Gx = sm2_Gx /\ gen_Gy = sm2_Gy /\
@@ -168,6 +213,12 @@ Theorem C02_source_constants_tied :
    gen_decrypt_min = Z.of_nat (1 + 64 + 32 + 1)).
 Proof. exact (conj curve_params_tied sig_params_tied). Qed.
 Print Assumptions C02_source_constants_tied.
+
+(* ---- tie to the source, structure: slice bounds, offsets, padding widths, prefix bytes of Encrypt / Decrypt /
+   CipherMarshal / CipherUnmarshal / ZA / keCoordBytes as the translator reads them now (SM2/SM2ParamsTie.v) --- *)
+Theorem C02_source_layout_tied : layout_statement.
+Proof. exact layout_tied. Qed.
+Print Assumptions C02_source_layout_tied.
 
 (* ---- non-vacuity: concrete instances, evaluated (key d = 1, nonce k = 2, three-byte plaintext) ------- *)
 Example C02_kdf_example :
